@@ -4,7 +4,7 @@
 //!
 //!   mopen <hex>     write the bytes to a file, `map::Reader::open`, call everything it exposes
 #![allow(dead_code)]
-use crate::domains::d_datafile::{compress, df_err_name, Comp, Image, Item};
+use crate::domains::d_datafile::{compress, df_err_name, tune_malloc, Comp, Image, Item};
 use crate::util::*;
 use libtw2_map::format as mf;
 use libtw2_map::reader as mr;
@@ -446,6 +446,20 @@ fn describe(m: &mut mr::Reader, o: &mut Oracle) -> String {
         parts.push(tl(gl.tune(), Kind::Tune, m, o));
         gls = format!("{}={}", gls, parts.join(","));
     }
+    // the file-backed datafile reader's own iterator forms
+    let via_iter: Vec<Option<Vec<u8>>> = m.reader.data_iter().map(|x| x.ok()).collect();
+    if via_iter.len() != nd {
+        o.fail("C16/data-iter-differs", format!("{} blocks, num_data {}", via_iter.len(), nd));
+    }
+    for (d, x) in via_iter.iter().enumerate() {
+        if *x != m.reader.read_data(d).ok() {
+            o.fail("C16/data-iter-differs", format!("block {}", d));
+        }
+    }
+    let _ = m.reader.debug_dump();
+    if m.reader.items().count() != m.reader.num_items() || m.reader.item_types().count() != m.reader.num_item_types() {
+        o.fail("C16/items-iterator-differs", String::new());
+    }
     let mut h = FNV_OFFSET;
     for d in 0..nd {
         h = fold_res(h, m.string(d));
@@ -761,6 +775,7 @@ fn emit_map(out: &mut dyn Write, g: &MapGen, rng: &mut Rng) {
 
 impl Domain for D {
     fn gen(&self, tier: &str, seed: u64, out: &mut dyn Write) {
+        tune_malloc();
         let mut rng = Rng::new(seed ^ 0x3a9);
         let thorough = tier != "quick";
         let (n_maps, n_sys) = if thorough { (6000, 30) } else { (500, 3) };
@@ -858,6 +873,7 @@ impl Domain for D {
         }
     }
     fn runner(&self) -> Box<dyn Runner> {
+        tune_malloc();
         Box::new(R { dir: run_dir() })
     }
 }
